@@ -223,3 +223,57 @@ def replay(inp):
     ok = (got == 'return') == expected and got in ('return', 'raise:ApprovalRequired') and not trace
     return {'ok': ok, 'expected': 'return' if expected else 'raise:ApprovalRequired', 'got': got,
             'trace': trace}
+
+
+META = {
+    'level': 'proof',
+    'explanation': 'check_approvals (and the bypass_* helpers / author_bypass property it calls, '
+                   'interpreted from source) verified against the statement of C04 for sets of '
+                   'users of any size: one VC per clause and execution path, discharged by cvc5 '
+                   '(finite sets with cardinality).',
+    'assumptions': [
+        'job.settings option values are booleans and counts are integers (the type SettingsSchema '
+        'and the option registry give them); a textual option argument such as approve=yes is outside '
+        'this contract',
+        'user handles are plain strings compared by equality',
+        'host review data (approvals, participants, change requests) are arbitrary finite sets, '
+        'independent of one another, constant during one evaluation',
+        'settings satisfy SettingsSchema.validate_inter_settings (0 <= leaders <= peers, leaders <= '
+        '|project_leaders|); the pull request author is not the robot',
+        'reading of "every review requirement above is waived": each requirement is met without '
+        'consulting host review data (DESIGN.md, C04)',
+    ],
+    'trusted_base': [],
+}
+
+
+def bounded_for(c, tier, seed):
+    """Bounded stand-in / cross-check: enumerate the 5-user universe of the property's
+    quantifier on the real function; returns the first failing case or None."""
+    import itertools
+    users = ['author', 'peer1', 'peer2', 'leader', 'robot']
+    subsets = [list(s) for r in range(len(users) + 1) for s in itertools.combinations(users, r)]
+    import random
+    rnd = random.Random(seed)
+    n = 0
+    for _ in range(4000 if tier == 'quick' else 60000):
+        inp = {
+            'job.pull_request.author': 'author', 'job.settings.robot': 'robot',
+            'job.settings.required_peer_approvals': rnd.randint(0, 3),
+            'job.settings.required_leader_approvals': rnd.randint(0, 2),
+            'job.settings.need_author_approval': rnd.random() < .5,
+            'job.settings.approve': rnd.random() < .3, 'job.settings.unanimity': rnd.random() < .3,
+            'job.settings.bypass_peer_approval': rnd.random() < .2,
+            'job.settings.bypass_leader_approval': rnd.random() < .2,
+            'job.settings.bypass_author_approval': rnd.random() < .2,
+            'job.settings.project_leaders': rnd.choice([['leader'], ['leader', 'author'], ['leader', 'peer1']]),
+            'pull_request.get_approvals': rnd.choice(subsets),
+            'pull_request.get_participants': rnd.choice(subsets),
+            'pull_request.get_change_requests': rnd.choice(subsets[:6]),
+        }
+        r = replay(inp)
+        n += 1
+        if not r.get('ok', True):
+            r['input'] = inp
+            return r
+    return None
